@@ -173,13 +173,14 @@ def record(pa, rng, count, rep):
                 for d in draws:
                     if d[0] == "normal":
                         dr.append({"k": "normal", "mu": fx(d[1]), "sigma": fx(d[2]), "var": fx(d[2] * d[2]), "x": fx(d[3]),
-                                   "xn": int(min(round(abs(d[3]) * 1e9), 2e9)), "r": 0, "p": []})
+                                   "xt": int(d[3]) * K,      # integer part exactly (the unit count is int(x): rounding 1.9999 to 2.000 would lie)
+                                   "xn": int(min(abs(d[3]) * 1e9, 2e9)), "r": 0, "p": []})      # floor: "< precision" stays exact
                     else:
-                        dr.append({"k": "choice", "mu": 0, "sigma": 0, "var": 0, "x": 0, "xn": 0, "r": catrank.get(d[3], 0),
+                        dr.append({"k": "choice", "mu": 0, "sigma": 0, "var": 0, "x": 0, "xt": 0, "xn": 0, "r": catrank.get(d[3], 0),
                                    "p": [] if d[2] is None else [fx(x, 10000) for x in d[2]]})
                 sanns = [gta.index(a) + 1 if a in gta else 0 for a in smp.annotators]
                 sample = [[gta.index(a) + 1 if a in gta else 0, fx(u.segment.start), fx(u.segment.end), catrank.get(u.annotation, 0),
-                           int(min(round((u.segment.end - u.segment.start) * 1e9), 2e9))] for a, u in smp]
+                           int(min((u.segment.end - u.segment.start) * 1e9 + 1e-3, 2e9))] for a, u in smp]
                 rec = {"nann": len(gta), "cats": list(range(1, len(cats) + 1)), "custom": 1 if custom else 0, "judgeparams": 1,
                        "draws": dr, "sample": sample, "sanns": sanns,
                        "given": {"count": [0, 0], "gap": [0, 0], "dur": [0, 0], "w": []},
@@ -192,7 +193,7 @@ def record(pa, rng, count, rep):
                     rec["ref"] = {"nann": len(anns),
                                   "units": [[anns.index(a) + 1, int(u.segment.start), int(u.segment.end), catrank[u.annotation]] for a, u in ref]}
                 recs.append(rec)
-                metas.append(dict(meta, draws=draws[:12], sample={a: [[u.segment.start, u.segment.end, u.annotation] for u in smp[a]] for a in smp.annotators}))
+                metas.append(dict(meta, draws=draws[:12], all_draws=[list(x) for x in draws][:400], sample={a: [[u.segment.start, u.segment.end, u.annotation] for u in smp[a]] for a in smp.annotators}))
                 rep.case(key=json.dumps([rec["draws"], rec["nann"]]))
     return recs, metas
 
@@ -238,7 +239,7 @@ def run(tier, rep):
                 ns = sorted({n for n, _ in names})
                 rep.violation("stat." + "+".join(ns), {"clauses": sorted(names), "meta": metas[part[k]],
                                                        "record": {x: y for x, y in recs[part[k]].items() if x != "draws"},
-                                                       "draws": recs[part[k]]["draws"][:15]})
+                                                       "draws": recs[part[k]]["draws"][:400], "raw_draws": metas[part[k]].get("all_draws")})
     rep.traces += len(recs)
     rep.sample({"record_head": {k: (v[:6] if isinstance(v, list) else v) for k, v in recs[0].items()}})
     rep.extra["records_custom_vs_reference"] = [sum(r["custom"] for r in recs), sum(1 - r["custom"] for r in recs)]
